@@ -52,6 +52,7 @@ type genOpts struct {
 	distinctW   bool // pairwise distinct weights
 	noCurrent   bool // no currentChoice
 	extraWeight bool // allow a superfluous weight entry where the method accepts it
+	plainIds    bool // never generate ids that differ only in case
 	vetoHeavy   bool // ELECTRE: every criterion has q, p and v (several discordant criteria per pair)
 	decimalW    bool // weights are multiples of 0.1: sums that are equal mathematically differ by a few ulps in float64
 	nearTiedW   bool // weights differ by 1e-7 only (distinct, but inside any "reasonable" epsilon)
@@ -183,6 +184,12 @@ func genRequest(r *rand.Rand, o genOpts) *genReq {
 	var base map[string]float64
 	for i := 0; i < na; i++ {
 		g.altIds[i] = fmt.Sprintf("a%d", i)
+		if i >= 1 && !o.plainIds && r.Intn(16) == 0 {
+			g.altIds[i] = strings.ToUpper(g.altIds[i-1]) // "A3" next to "a3": distinct ids that differ only in case
+			if strings.ToUpper(g.altIds[i-1]) == g.altIds[i-1] {
+				g.altIds[i] = fmt.Sprintf("a%d", i)
+			}
+		}
 		cv := M{}
 		cur := map[string]float64{}
 		dup := base != nil && r.Intn(6) == 0 // planted identical alternative
